@@ -295,6 +295,11 @@ pub fn stress_strings(payloads: &[&str]) -> Vec<String> {
         v.push(format!("{}{p}", "x".repeat(140_000)));
         v.push(format!("b{p}c"));
     }
+    // inputs beyond 1 MiB (lazy / streaming paths that only exist for very large arguments)
+    if let Some(p) = payloads.first() {
+        v.push(format!("{}{p}", "correct horse battery staple ".repeat(36_200)));
+        v.push(format!("{}{p}!", "correct horse battery staple ".repeat(36_200)));
+    }
     // ASCII labels with one single space and one double space at every relative distance
     for first in [1usize, 2, 7, 8, 9, 15, 16, 17, 31, 32, 33] {
         for gap in 1..=100usize {
@@ -383,12 +388,92 @@ pub fn composing_pairs(run: &Run, section: &str, f: &(dyn Fn(&str, &mut Local) -
                 return;
             }
             for b in p.compose_tail.iter() {
-                for s in [format!("{a}{b}"), format!("x{a}{b}{b}y")] {
+                for s in [format!("{a}{b}"), format!("x{a}{b}{b}y"), format!("{a}{b}\u{a0}x"), format!("\u{3000}z{a}{b}")] {
                     l.cases += 1;
                     if !f(&s, l) {
                         return;
                     }
                 }
+            }
+        }
+    });
+}
+
+/// run lengths for long-run batteries: everything up to 40, then around the usual thresholds
+pub fn run_lengths() -> Vec<usize> {
+    let mut v: Vec<usize> = (0..=40).collect();
+    v.extend([41usize, 47, 48, 49, 63, 64, 65, 70, 71, 99, 100, 101, 127, 128, 129, 199, 200, 201, 255, 256, 257, 499, 500, 501, 511, 512, 513, 999, 1000, 1001, 1023, 1024, 1025, 4095, 4096, 4097]);
+    v
+}
+
+/// ZWNJ between transparent runs (2-byte and 3-byte marks) of the lengths above on either side, with joining / non-joining ends
+pub fn zwnj_run_labels() -> Vec<String> {
+    let lens = run_lengths();
+    let mut v = Vec::new();
+    for (i, nb) in lens.iter().enumerate() {
+        for (j, na) in lens.iter().enumerate() {
+            // all combinations of short runs; long runs against a few partners
+            if *nb > 40 && *na > 40 && i != j {
+                continue;
+            }
+            if (*nb > 40 || *na > 40) && !(*nb <= 2 || *na <= 2 || i == j) {
+                continue;
+            }
+            for (left, right, mb, ma) in [('\u{628}', '\u{628}', '\u{64e}', '\u{650}'), ('\u{626}', '\u{627}', '\u{5bf}', '\u{951}'), ('a', '\u{628}', '\u{64e}', '\u{64e}'), ('\u{628}', 'a', '\u{951}', '\u{64e}'), ('\u{94d}', 'a', '\u{64e}', '\u{650}')] {
+                let mut s = String::new();
+                s.push(left);
+                s.extend(std::iter::repeat(mb).take(*nb));
+                s.push('\u{200c}');
+                s.extend(std::iter::repeat(ma).take(*na));
+                s.push(right);
+                v.push(s);
+            }
+        }
+    }
+    v
+}
+
+/// labels with exactly n ASCII words (n = 1..=300), one separator of them doubled / non-ASCII, plus contextual families
+pub fn counted_word_labels() -> Vec<String> {
+    let mut v = Vec::new();
+    for n in 1..=300usize {
+        for (special_at, sep) in [(n / 2, "  "), (0, "\u{a0}"), (n.saturating_sub(2), "   ")] {
+            let mut s = String::new();
+            for i in 0..n {
+                s.push_str(&format!("w{i}"));
+                if i + 1 < n {
+                    s.push_str(if i == special_at { sep } else { " " });
+                }
+            }
+            v.push(s);
+        }
+    }
+    v
+}
+
+/// whole contextual families in one label
+pub const PAYLOADS_FAMILIES: [&str; 6] = [
+    "\u{3042}\u{30fb}\u{660}\u{661}\u{662}\u{663}\u{664}\u{665}\u{666}\u{667}\u{668}\u{669}",
+    "\u{6f0}\u{6f1}\u{6f2}\u{6f3}\u{6f4}\u{6f5}\u{6f6}\u{6f7}\u{6f8}\u{6f9}\u{30ab}\u{30fb}",
+    "\u{30fb}\u{30fb}\u{6f22}\u{660}\u{660}\u{669}\u{375}\u{3b1}l\u{b7}l\u{5d0}\u{5f3}\u{5d0}\u{5f4}",
+    "\u{94d}\u{200d}\u{94d}\u{200c}\u{9cd}\u{200d}\u{626}\u{200c}\u{626}",
+    "\u{660}\u{661}\u{662}\u{663}\u{664}\u{665}\u{666}\u{667}\u{668}\u{669}\u{6f0}",
+    "l\u{b7}l\u{b7}l\u{b7}l\u{375}\u{3b1}\u{375}\u{3b2}",
+];
+
+/// run `f` over an arbitrary list of strings, partitioned over the threads
+pub fn battery(run: &Run, section: &str, all: &[String], f: &(dyn Fn(&str, &mut Local) -> bool + Sync)) {
+    run.par(section, true, |tid, n, l| {
+        for (i, s) in all.iter().enumerate() {
+            if i % n != tid {
+                continue;
+            }
+            if i % 256 < n && run.stopped() {
+                return;
+            }
+            l.cases += 1;
+            if !f(s, l) {
+                return;
             }
         }
     });
